@@ -515,3 +515,136 @@ static void run_c19_pool(void)
 }
 SIM_WORKLOAD("C07", "pool-lin", run_c07, 10)
 SIM_WORKLOAD("C19", "pool-wait", run_c19_pool, 5)
+
+/* ---- scenario "big-batch": one ABT_pool_push_threads call with more units than any internal
+ * buffer holds (65..100) is still one queue operation.  While producer A pushes the batch,
+ * producer B pushes a single unit and consumer C pops with a bound larger than everything.
+ * Afterwards the pool is drained.  Reading C's results and the drain as the queue order: the
+ * batch is contiguous and in order (B's unit sits before or after it, never inside), and every
+ * pop returned 0, 1 (B's unit), N or N+1 units, never a part of the batch. ---- */
+#define BB_MAX 104
+static struct {
+    ABT_pool pool, park;
+    int n; /* batch size */
+    ABT_thread tok[BB_MAX];
+    int order[BB_MAX + 8], norder;
+    int pops[4], npops;
+    volatile int go, done;
+    int kind;
+} BB;
+static int bb_index(ABT_thread th)
+{
+    for (int i = 0; i <= BB.n; i++)
+        if (BB.tok[i] == th)
+            return i;
+    return -1;
+}
+static void bb_a(void *arg)
+{
+    (void)arg;
+    while (!BB.go)
+        sim_yield();
+    if (BB.kind & 1)
+        ABT_OK(ABT_pool_push_threads(BB.pool, BB.tok, (size_t)BB.n));
+    else
+        ABT_OK(ABT_pool_push_threads_ex(BB.pool, BB.tok, (size_t)BB.n, ABT_POOL_CONTEXT_OP_POOL_OTHER));
+    sim_progress();
+    __atomic_add_fetch(&BB.done, 1, __ATOMIC_RELAXED);
+}
+static void bb_b(void *arg)
+{
+    int pauses = (int)(long)arg;
+    while (!BB.go)
+        sim_yield();
+    for (int i = 0; i < pauses; i++)
+        sim_yield();
+    ABT_OK(ABT_pool_push_thread(BB.pool, BB.tok[BB.n]));
+    sim_progress();
+    __atomic_add_fetch(&BB.done, 1, __ATOMIC_RELAXED);
+}
+static void bb_c(void *arg)
+{
+    int pauses = (int)(long)arg;
+    while (!BB.go)
+        sim_yield();
+    for (int r = 0; r < 3; r++) {
+        for (int i = 0; i < pauses; i++)
+            sim_yield();
+        ABT_thread out[BB_MAX + 8];
+        size_t got = 0;
+        ABT_OK(ABT_pool_pop_threads(BB.pool, out, BB_MAX + 8, &got));
+        BB.pops[BB.npops++] = (int)got;
+        for (size_t i = 0; i < got; i++) {
+            int t = bb_index(out[i]);
+            SIM_CHECK(t >= 0, "pool:pop-unknown-unit", "big-batch: pop_threads returned a handle that was never pushed");
+            BB.order[BB.norder++] = t;
+        }
+        sim_progress();
+    }
+    __atomic_add_fetch(&BB.done, 1, __ATOMIC_RELAXED);
+}
+static void run_c07_batch(void)
+{
+    memset(&BB, 0, sizeof BB);
+    wl_env_swarm();
+    ABT_OK(ABT_init(0, NULL));
+    static const ABT_pool_kind kinds[] = { ABT_POOL_FIFO, ABT_POOL_FIFO_WAIT, ABT_POOL_RANDWS };
+    int k = (int)plan_n(3);
+    BB.kind = (int)plan_n(4);
+    BB.n = plan_range(60, 100);
+    ABT_OK(ABT_pool_create_basic(kinds[k], plan_bool() ? ABT_POOL_ACCESS_MPMC : ABT_POOL_ACCESS_MPSC, ABT_FALSE, &BB.pool));
+    ABT_OK(ABT_pool_create_basic(ABT_POOL_FIFO, ABT_POOL_ACCESS_MPMC, ABT_FALSE, &BB.park));
+    sim_note("C07 big-batch pool=%s batch=%d ", wl_pool_names[k], BB.n);
+    for (int i = 0; i <= BB.n; i++) {
+        ABT_OK(ABT_thread_create(BB.park, token_fn, (void *)(long)0, ABT_THREAD_ATTR_NULL, &BB.tok[i]));
+        ABT_thread th;
+        ABT_OK(ABT_pool_pop_thread(BB.park, &th));
+    }
+    int ta = sim_thread_create(bb_a, NULL);
+    int tb = sim_thread_create(bb_b, (void *)(long)plan_n(40));
+    int tc = sim_thread_create(bb_c, (void *)(long)plan_n(30));
+    BB.go = 1;
+    sim_thread_join(ta);
+    sim_thread_join(tb);
+    sim_thread_join(tc);
+    for (;;) {
+        ABT_thread th = ABT_THREAD_NULL;
+        ABT_OK(ABT_pool_pop_thread(BB.pool, &th));
+        if (th == ABT_THREAD_NULL)
+            break;
+        int t = bb_index(th);
+        SIM_CHECK(t >= 0 && BB.norder < BB_MAX + 8, "pool:pop-unknown-unit", "big-batch: the drain returned an unknown handle");
+        BB.order[BB.norder++] = t;
+    }
+    SIM_CHECK(BB.norder == BB.n + 1, "pool:lost-unit", "big-batch: %d units pushed, %d came out", BB.n + 1, BB.norder);
+    int seen[BB_MAX] = { 0 }, first = -1;
+    for (int i = 0; i < BB.norder; i++) {
+        SIM_CHECK(!seen[BB.order[i]]++, "pool:unit-popped-twice", "big-batch: unit %d came out twice", BB.order[i]);
+        if (BB.order[i] == 0)
+            first = i;
+    }
+    SIM_CHECK(first >= 0, "pool:lost-unit", "big-batch: the first unit of the batch never came out");
+    for (int i = 0; i < BB.n; i++)
+        SIM_CHECK(first + i < BB.norder && BB.order[first + i] == i, "pool:batch-torn",
+                  "big-batch: ABT_pool_push_threads of %d units is not one queue operation: position %d after the batch's first unit holds unit %d (%s) instead of batch element %d", BB.n,
+                  i, first + i < BB.norder ? BB.order[first + i] : -1, first + i < BB.norder && BB.order[first + i] == BB.n ? "the other producer's unit" : "out of order", i);
+    for (int i = 0; i < BB.npops; i++)
+        SIM_CHECK(BB.pops[i] == 0 || BB.pops[i] == 1 || BB.pops[i] == BB.n || BB.pops[i] == BB.n + 1, "pool:batch-torn",
+                  "big-batch: a pop with a bound above everything returned %d units while a batch of %d and one single unit were being pushed: it saw a part of the batch", BB.pops[i], BB.n);
+    sim_count("pool.big_batches", 1);
+    ABT_xstream xs;
+    ABT_pool mainp;
+    ABT_OK(ABT_xstream_self(&xs));
+    ABT_OK(ABT_xstream_get_main_pools(xs, 1, &mainp));
+    for (int t = 0; t <= BB.n; t++) {
+        ABT_OK(ABT_thread_set_associated_pool(BB.tok[t], mainp));
+        ABT_OK(ABT_pool_push_thread(mainp, BB.tok[t]));
+    }
+    for (int t = 0; t <= BB.n; t++)
+        ABT_OK(ABT_thread_free(&BB.tok[t]));
+    ABT_OK(ABT_pool_free(&BB.pool));
+    ABT_OK(ABT_pool_free(&BB.park));
+    ABT_OK(ABT_finalize());
+    sim_ledger_check_empty("after ABT_finalize");
+}
+SIM_WORKLOAD("C07", "big-batch", run_c07_batch, 1)
